@@ -506,7 +506,8 @@ inline void supervise(const Part &part, const Options &opt, Agg &agg) {
           agg.crashed++;
           while (pos < todo.size() && todo[pos] <= inflight) ++pos;
         }
-        // else: retry the same case alone (pos unchanged)
+        // else: retry the same case alone (pos unchanged); keep a trace of it in the evidence
+        else { agg.counters["cases_rerun_alone_after_cpu_budget"] += 1; agg.counters["rerun_alone_case_" + std::to_string(inflight)] += 1; }
       } else {
         std::string text = readFile(errPath);
         auto ke = classifyStderr(text, status);
